@@ -97,6 +97,14 @@ def run(chk, orch):
         plan = {}
         for wi, (spec, opts) in enumerate(wls):
             n = spec["n_exp"]
+            # documented: when some experiment has several files and --read_group is not set, the invocation runs with
+            # --read_group file_name; "the same options" for the stand-alone references therefore includes it
+            fs = workload.full_spec(spec)
+            nfiles = [(fs.get("exp_bams") or [fs["n_bams"]] * n + [fs["n_bams"]] * n)[i] if fs.get("exp_bams") and i < len(fs["exp_bams"])
+                      else fs["n_bams"] for i in range(n)]
+            if opts.get("read_group") is None and max(nfiles) > 1:
+                opts = dict(opts, read_group="file_name")
+                wls[wi] = (spec, opts)
             for i in range(n):
                 orch.submit(0, "scenarios:pipeline", common.job_args(spec, dict(opts, only_exp=i), common.GOLDEN_CELL),
                             tag=("solo", wi, i))
